@@ -296,7 +296,10 @@ def body(data) -> Outcome:
                 del log[:]
                 try:
                     p = build_pipeline(prog, log, lazy=True, cache_type=None)
-                    # make the id counter run ahead, as any earlier lazy work in the process would
+                    # as in a fresh interpreter: node ids start at 0 (the outcome must not depend on how much lazy
+                    # work this worker process has done before)
+                    if hasattr(_LazyFunction, "_counter"):
+                        _LazyFunction._counter = 0
                     outside = p(o, **kw_o)
                     with construct_dag() as tg:
                         r = p(t, **{**kw_t, o: outside})
